@@ -169,7 +169,11 @@ def case(ctx):
             small = [(cx + (v[0] - cx) * k, cy + (v[1] - cy) * k) for v in verts]
             if num == "int":
                 small = [(Fr(round(p[0])), Fr(round(p[1]))) for p in small]
-            if len(set(small)) == len(small) and G.valid_polygon(small) and O.region_contains(("simple", G.poly_curve(verts)), small[0], 0) if True else False:
+            try:
+                inside = len(set(small)) == len(small) and G.valid_polygon(small) and O.region_contains(("simple", G.poly_curve(verts)), small[0], 0)
+            except (O.OnBoundary, O.TooClose):  # the rounded copy has a vertex on the outer boundary
+                inside = False
+            if inside:
                 sa, sb = outer, G.poly_spec(small, num if num != "int" else "int")
             else:
                 sa, sb = outer, G.random_simple(rng, num, False, (float(cx), float(cy)), 0.5)[0]
